@@ -141,6 +141,10 @@ def c09(tier, seed):
             label="Gen_Normalize/map-orders", min_cases=10000),
         GEN("Gen_Merge", dict(UA=u, UB=u, PolSet="<-Pols", FosSet="<-FosNone"), "merge",
             replay_args=["--reprs", "map,cfg", "--repeat", k], label="Gen_Merge/map-orders", min_cases=1000),
+        # inputs that are REJECTED: several faulty entries (unsupported type, non-string keys, a nested duplicate) in one
+        # map - the same kind of error every time
+        MC("Gen_NormFaults", dict(Groups="={}"), invariants=["RejectedIffFaulty"], label="MC_NormFaults/rejected-iff-faulty"),
+        GEN("Gen_NormFaults", {}, "normfaults", replay_args=["--repeat", "12" if q else "48"], label="Gen_NormFaults/faulty-entries-x-orders", min_cases=250),
         # settings that reference each other: create + Unpack of the whole config, repeated; the per-call cache and
         # the active set are shared between the fields, which the runtime visits in a fresh random order every time
         varexp_gen(tier, label="Gen_VarExp/unpack-orders", extra=["--repeat", "6" if q else "16", "--every", "2" if q else "1"]),
@@ -223,7 +227,15 @@ def c02(tier, seed):
         # (Resolve(fn), ResolveEnv, ResolveNOOP, one answering with the empty text) in every order
         MC("Gen_VarLayers", dict(NameTab="<-TabLayers", Groups="={}"), invariants=["TypeOK", "ResolverOrder"], label="MC_VarLayers/resolver-order"),
         GEN("Gen_VarLayers", dict(NameTab="<-TabLayers"), "varexp", label="Gen_VarLayers/envs-x-resolver-kinds", min_cases=15000),
+        varexp_trace(tier),
     ]
+
+
+def varexp_trace(tier):
+    # direction B: random worlds (expressions of depth <= 3 over every operator, random Env configurations and resolvers of
+    # every kind) read on the real code; TLC evaluates the same world with UcfgVarExp and compares every read
+    return TRACE("Trace_VarExp", "varexp", consts=dict(NameTab="<-TabTrace"), n=1500 if tier == "quick" else 40000,
+                 label="Trace_VarExp/random-worlds", trace_file="trace_varexp.ndjson")
 
 
 def c08(tier, seed):
@@ -242,6 +254,7 @@ def c08(tier, seed):
         MC("Gen_VarLayers", dict(NameTab="<-TabLayers", Groups="={}"), invariants=["NameKeyedFalseCycle"], expect_violation=True,
            label="MC_VarLayers/refute-ActiveKeyedByName"),
         GEN("Gen_VarLayers", dict(NameTab="<-TabLayers"), "varexp", label="Gen_VarLayers/envs-x-resolver-kinds", min_cases=15000),
+        varexp_trace(tier),
     ]
 
 
@@ -274,7 +287,7 @@ def reify_stages(inv, refute, tier="quick"):
 def c04(tier, seed):
     return reify_stages(["OkIsValid"], [("PtrDefaultSkipsRange", ["OkIsValid"]), ("UncheckedCarriedOver", ["OkIsValid"])], tier) + [
         MC("Gen_Validators", dict(Groups="={}"), invariants=["OkIsValid", "BreakFails"], label="MC_Validators/table"),
-        GEN("Gen_Validators", {}, "validators", label="Gen_Validators/kinds-x-tags-x-defaults-x-settings", min_cases=4000),
+        GEN("Gen_Validators", {}, "validators", label="Gen_Validators/kinds-x-tags-x-defaults-x-settings", min_cases=12000),
         # the validated field reached through every kind of wrapper (pointers to pointers, interface{}-held values, elements of
         # slices / arrays / maps in all these forms), pre-filled, with the configuration mentioning nothing or only a part
         MC("Gen_Reach", dict(Groups="={}"), invariants=["NoInvalidAccepted", "DefaultsKept"], label="MC_Reach/reachable-defaults"),
